@@ -600,11 +600,19 @@ theorem segment_pressure_sem (i : Nat) (c : Ctx K) (w : WellIn K) (ws : List (We
   evalSegpress_eq i c w ws d hw hd hs
 
 /-- `region_rate_sem`: signed sum over the region's connections of connection rate × efficiency
-factor, each clamped to the direction. -/
+factor, each clamped to the direction; connections of wells reported SHUT add nothing. -/
 theorem region_rate_sem (p : Rt) (inj : Bool) (c : Ctx K) :
-    evalRegionRate p inj c =
-      sgn inj * (c.rconns.map fun wc => keep inj (connRate c.dyns wc.1 wc.2 p * c.efac wc.1)).sum :=
+    evalRegionRate p inj c = sgn inj * (c.rconns.map (regionTerm p inj c.efac c.dyns)).sum :=
   evalRegionRate_eq p inj c
+
+/-- **Shut wells contribute nothing to region vectors** (as on the well, connection, group and
+field level): a region all of whose connections belong to SHUT wells has rate 0 whatever the
+connection results say, and a SHUT well's connection can be dropped from any region. -/
+theorem region_shut_wells_contribute_nothing (p : Rt) (inj : Bool) (c : Ctx K) :
+    ((∀ wc ∈ c.rconns, dynShut c.dyns wc.1 = true) → evalRegionRate p inj c = 0) ∧
+    (∀ (wc : String × Nat) (rest : List (String × Nat)), dynShut c.dyns wc.1 = true →
+      evalRegionRate p inj { c with rconns := wc :: rest } = evalRegionRate p inj { c with rconns := rest }) :=
+  ⟨region_all_shut_zero p inj c, fun wc rest h => region_shut_connection_irrelevant p inj c wc rest h⟩
 
 /-- **Regions add up**: the rate over a concatenation of connection lists is the sum of the
 rates over the pieces — any number of regions; two region sets that partition the same
@@ -736,7 +744,15 @@ def ctxReg : Ctx ℚ :=
              ("I1", { shut := false, rates := [], conns := [⟨12, [(.oil, 3)], 0, 0⟩] })],
     rconns := [("P1", 11), ("I1", 12)] }
 example : evalRegionRate .oil false ctxReg = 2 ∧ evalRegionRate .oil true ctxReg = 3 := by
-  constructor <;> simp [evalRegionRate, regionLoop, ctxReg, connRate, findConn, lookupRate] <;> norm_num
+  constructor <;> simp [evalRegionRate, regionLoop, ctxReg, connRate, dynShut, findConn, lookupRate] <;> norm_num
+/-- the same region when the simulator reports P1 as SHUT but still carries its connection rate -/
+def ctxRegShut : Ctx ℚ :=
+  { ctxReg with dyns := [("P1", { shut := true, rates := [], conns := [⟨11, [(.oil, -4)], 0, 0⟩] }),
+                         ("I1", { shut := false, rates := [], conns := [⟨12, [(.oil, 3)], 0, 0⟩] })] }
+example : dynShut ctxRegShut.dyns "P1" = true ∧ evalRegionRate .oil false ctxRegShut = 0 := by
+  constructor
+  · simp [dynShut, ctxRegShut]
+  · simp [evalRegionRate, regionLoop, ctxRegShut, ctxReg, connRate, dynShut, findConn, lookupRate]
 example : Calendar.Valid 2024 2 29 ∧ ¬ Calendar.Valid 2023 2 29 := by
   unfold Calendar.Valid Calendar.daysInMonth Calendar.isLeap; decide
 
